@@ -24,29 +24,29 @@ type C16Params struct {
 	Argv     []string   `json:"argv"`
 	Control  *World     `json:"control_world"` // the same world without the fault
 	CtlArgv  []string   `json:"control_argv"`
-	Target   string     `json:"target"`           // world path of the failing item's target ("" = none)
-	TgtLine  int        `json:"target_line"`      // update: line index of the failing item's SecRule line in the rules file
-	Mode     string     `json:"mode"`             // loud | loud-or-complete | write-fault
+	Target   string     `json:"target"`      // world path of the failing item's target ("" = none)
+	TgtLine  int        `json:"target_line"` // update: line index of the failing item's SecRule line in the rules file
+	Mode     string     `json:"mode"`        // loud | loud-or-complete | write-fault
 	Plan     simrt.Plan `json:"plan"`
 	FaultyRa string     `json:"faulty_file,omitempty"`
 }
 
 var c16LineFaults = map[string]string{
-	"missing-include":    "##!> include nosuchfile",
-	"missing-exclude":    "##!> include-except inc1 nosuchexclude",
+	"missing-include":                    "##!> include nosuchfile",
+	"missing-exclude":                    "##!> include-except inc1 nosuchexclude",
 	"missing-exclude-after-all-excluded": "##!> include-except onlyone ex-all nosuchexclude",
-	"unparsable-entry":   "a(b[",
-	"unparsable-prefix":  "##!^ [z-a]",
-	"unparsable-suffix":  "##!$ x{2,1}",
-	"unknown-processor":  "##!> frobnicate\nfoo\n##!<",
-	"unknown-cmdline":    "##!> cmdline vms\nfoo\n##!<",
-	"missing-block-end":  "##!> assemble\nfoo",
-	"stray-block-end":    "##!<",
-	"unknown-stored":     "##!> assemble\nfoo\n##!=> nosuchname\nbar\n##!<",
-	"missing-identifier": "##!> assemble\nfoo\n##!=<\nbar\n##!<",
-	"unsupported-flag":   "##!+ x",
-	"odd-replacements":   "##!> include inc1 -- a b c",
-	"flags-in-include":   "##!> include withflags",
+	"unparsable-entry":                   "a(b[",
+	"unparsable-prefix":                  "##!^ [z-a]",
+	"unparsable-suffix":                  "##!$ x{2,1}",
+	"unknown-processor":                  "##!> frobnicate\nfoo\n##!<",
+	"unknown-cmdline":                    "##!> cmdline vms\nfoo\n##!<",
+	"missing-block-end":                  "##!> assemble\nfoo",
+	"stray-block-end":                    "##!<",
+	"unknown-stored":                     "##!> assemble\nfoo\n##!=> nosuchname\nbar\n##!<",
+	"missing-identifier":                 "##!> assemble\nfoo\n##!=<\nbar\n##!<",
+	"unsupported-flag":                   "##!+ x",
+	"odd-replacements":                   "##!> include inc1 -- a b c",
+	"flags-in-include":                   "##!> include withflags",
 }
 
 var c16TreeFaults = []string{"rule-id-absent", "chain-offset-absent", "rules-file-absent", "two-rules-files"}
@@ -562,9 +562,14 @@ func init() {
 		ID: "C16", Level: "fault_enumeration",
 		Rule: "cells = {fault class} x {position: top level, in a block, in an included file; first / middle / last file of an --all run} x {command for which the fault makes the request impossible}, written down once from the statement (missing include, unparsable entry, unknown processor, unknown cmdline type, missing / stray ##!<, unknown stored name, missing identifier, unsupported flag, flags line in an include, odd replacement list; rule id / chain offset / rules file absent, two rules files for the prefix; malformed RULE_ID, absent target file; invalid / missing version; second tier, injected through the I/O seam: EROFS before the first byte or ENOSPC after a prefix on the write of the target; EACCES on open / EIO on read of a file the command needs - assembly file, include file, rules file, test file, .conf / .example file). Every cell is enumerated in every run and instantiated on seeded valid worlds (3 rules, chain, 4 assembly files, includes); each instance first runs the command fault-free on the twin world (control), then with the fault, under a seeded schedule. Oracle: exit != 0; generate prints nothing; the failing item's target (file, or rule line for update --all) and, for single-target invocations, the whole tree are byte-identical; format on unsupported flag / stray end marker may alternatively complete with white-space-only changes; write faults: exit != 0 only. Non-trivial = control succeeded and the fault was reached; distinct = distinct cells x worlds.",
 		Gen:  genC16, Eval: evalC16,
-		Cells:         c16Cells,
-		ChecksPerCell: func(tier string) int { if tier == "thorough" { return 200 }; return 30 },
-		Timeout:       20 * time.Second,
+		Cells: c16Cells,
+		ChecksPerCell: func(tier string) int {
+			if tier == "thorough" {
+				return 200
+			}
+			return 30
+		},
+		Timeout: 20 * time.Second,
 		Assumptions: []string{
 			"items processed before the failing one in an --all run may have been written; items after it are not judged",
 			"for the write-fault tier only the exit status is judged (I/O errors are not in the statement's list; a torn target is not a violation)",
